@@ -137,6 +137,21 @@ CHECKS['C02'] = dict(
     technique='TLA+ operational semantics as oracle over all inputs; converted function executed under a functional operator backend',
     design_ref='DESIGN.md section 5 (C02)', engine='tlc-minipy')
 
+CHECKS['C11'] = dict(
+    text='(1) spec/Namer.tla models new_symbol together with the callers\' reservation policy; TLC shows on the model that '
+         'reserving only names that are read violates FreshVisible and that reserving every identifier satisfies it. (2) '
+         'Programs of the C01 class (exhaustive skeletons + random) are renamed so that their variables, parameters, nested '
+         'function names and loop targets are the converter\'s own vocabulary (do_return, retval_, break_, continue_, fscope, '
+         'lscope, get_state, set_state, if_body, else_body, loop_body, loop_test, extra_test, itr, vars_, numbered variants) '
+         'and go through the C01 differential replay with spec/MiniPy.tla as oracle; a divergence the neutrally named twin does '
+         'not show is attributed by delta debugging over the renaming to the colliding identifier and role. (3) Every call of '
+         'the real Namer.new_symbol made during those conversions is recorded with the function it was made for and validated '
+         'by TLC against spec/TraceNamer.tla: the result is fresh w.r.t. every identifier visible to user code in that function.',
+    note='Globals and builtins as roles are not generated yet (tracer names T/D/I/CM/E1/E2 are kept). Identifier visibility '
+         'is per function subtree. Bounds as C01.',
+    technique='TLA+ Namer model (design-level invariant) + trace validation of recorded new_symbol calls + spec-driven differential replay',
+    design_ref='DESIGN.md section 5 (C11)', engine='tlc-minipy')
+
 NOT_CLAIMED = {}
 
 
